@@ -190,6 +190,43 @@ pub fn campaigns(ctx: &Ctx) -> Stats {
         c.second_is_view_of_first = Some(cfg.a.clone());
         Some(c)
     }));
+    // the second factor is a reshaped VIEW of the first with other (broadcasting) leading dimensions or the transposed-looking
+    // factorisation: shared storage does not mean "a matrix against its own transpose"
+    {
+        let pairs: Vec<(Vec<usize>, Vec<usize>)> = vec![
+            (vec![2, 2, 3], vec![2, 1, 2, 3]),
+            (vec![2, 2, 2], vec![2, 1, 2, 2]),
+            (vec![2, 2, 2], vec![1, 2, 2, 2]),
+            (vec![2, 3], vec![3, 2]),
+            (vec![2, 3], vec![1, 2, 3]),
+            (vec![3, 2, 2], vec![3, 1, 2, 2]),
+            (vec![2, 2], vec![1, 2, 2]),
+            (vec![2, 2], vec![2, 2]),
+            (vec![2, 3, 2], vec![2, 1, 3, 2]),
+            (vec![4], vec![2, 2]),
+            (vec![2, 2], vec![4]),
+        ];
+        let mut cases = vec![];
+        for (xd, vd) in &pairs {
+            for ta in [false, true] {
+                for tb in [false, true] {
+                    for swap in [false, true] {
+                        let vals: Vec<f64> = (0..numel(xd)).map(|k| (k * k + 1) as f64).collect();
+                        let mut st = refmodel::model::RefState::forward_only();
+                        let a = st.new_leaf(xd, &vals, false);
+                        let b = st.new_leaf(vd, &vals, false);
+                        let op = OpKind::Matmul { ta, tb, has_c: false };
+                        // the view is always the SECOND leaf of the case; `swap` decides which one is the left factor
+                        let _ = swap;
+                        if st.eval(&op, &[a, b]).is_ok() {
+                            cases.push(FwdCase { op, leaves: vec![LeafSpec { dims: xd.clone(), vals: vals.clone(), tracked: swap }, LeafSpec { dims: vd.clone(), vals: vals.clone(), tracked: false }], force_exact: None, second_is_view_of_first: Some(vd.clone()) });
+                        }
+                    }
+                }
+            }
+        }
+        st.merge(ctx.run_indexed("factor-is-a-reshaped-view-of-the-other", cases.len() as u64, None, |i| Some(cases[i as usize].clone())));
+    }
     // one of rows / inner / cols around typical block lengths, the others small
     {
         let nb = BOUNDARY_SIZES.len() as u64;
